@@ -330,7 +330,34 @@ class Check:
         for r in res:
             self.oblige("theorem", r["name"], r["ok"], r.get("error", "") or ("axioms: " + (", ".join(r["axioms"]) or "none")))
         self.extra["theorem_axioms"] = {r["name"]: r["axioms"] for r in res}
+        if self.tier == "thorough":
+            self.coqchk()
         return all(r["ok"] for r in res)
+
+    def coqchk(self):
+        """Thorough tier: re-check the property file and everything it depends on with the independent checker."""
+        rc, out = sh(["timeout", "2400", "coqchk", "-silent", "-o", "-Q", COQ, "CE", f"CE.Properties.{self.pid}"], timeout=2500)
+        axioms = []
+        sect = None
+        flags = {}
+        for line in out.splitlines():
+            m = re.match(r"^\* (.*?):\s*(.*)$", line.strip())
+            if m:
+                sect = m.group(1)
+                if m.group(2):
+                    flags[sect] = m.group(2)
+                continue
+            if sect == "Axioms" and line.strip():
+                axioms.append(line.strip())
+        short = [a.replace("Coq.Logic.", "").replace("Coq.Reals.", "").replace("Coq.Numbers.Cyclic.Int63.", "")
+                 .replace("Coq.Floats.", "") for a in axioms]
+        bad = [a for a in short if a not in ALLOWED_AXIOMS and not a.startswith(ALLOWED_AXIOM_PREFIXES)]
+        unsafe = [k for k, v in flags.items() if ("type-in-type" in k or "unsafe" in k or "positivity" in k) and v != "<none>"]
+        ok = rc == 0 and not bad and not unsafe
+        self.oblige("coqchk", f"coqchk -o CE.Properties.{self.pid}", ok,
+                    (f"axioms of all loaded libraries: {', '.join(short) or 'none'}" if ok else
+                     f"rc={rc} bad axioms={bad} unsafe={unsafe} tail={out[-400:]}"))
+        self.extra["coqchk_axioms"] = short
 
     def finish(self):
         wall = time.time() - self.t0
